@@ -380,7 +380,27 @@ def prog_chain():
     return out
 
 
-PROGRAMS = {'chain': prog_chain, 'spec_queries': prog_spec_queries, 'compare': prog_compare, 'declarations': prog_declarations,
+def prog_constructors():
+    """the constructors of the base classes the accelerator replaces, called the ways their Python signatures allow"""
+    out = []
+    for kw in ({}, {'name': 'x'}, {'module': 'm'}, {'name': 'x', 'module': 'm'}, {'__name__': 'x'}, {'__module__': 'm'}, {'bogus': 1}):
+        def make(kw=kw):
+            b = InterfaceBase(**kw)
+            return ('ok', b.__name__)
+        out.append(('InterfaceBase(**%r)' % (sorted(kw),), attempt(make)))
+    for args in ((), ('x',), ('x', 'm'), ('x', 'm', 1)):
+        def make2(args=args):
+            b = InterfaceBase(*args)
+            return ('ok', b.__name__)
+        out.append(('InterfaceBase(*%r)' % (args,), attempt(make2)))
+    out.append(('SpecificationBase()', attempt(lambda: type(SpecificationBase()).__name__)))
+    out.append(('SpecificationBase(1)', attempt(lambda: type(SpecificationBase(1)).__name__)))
+    out.append(('LookupBase()', attempt(lambda: type(LookupBase()).__name__)))
+    out.append(('LookupBase().changed(None)', attempt(lambda: LookupBase().changed(None))))
+    return out
+
+
+PROGRAMS = {'constructors': prog_constructors, 'chain': prog_chain, 'spec_queries': prog_spec_queries, 'compare': prog_compare, 'declarations': prog_declarations,
             'adapt': prog_adapt, 'registry': prog_registry}
 
 
